@@ -313,72 +313,131 @@ func gbC12AddPackage(c *engine.Ctx, p *engine.Prog) {
 			}
 			c.Check("addpkg-guard", "reserved-run-path", t.Pos(), ok, why)
 		}
-		// existing public package; public over private
-		okEx, okPriv := false, false
-		for _, gt := range g.Gates(t) {
-			if gt.OnTrue {
-				continue
-			}
-			cj := engine.Conjuncts(gt.Cond, token.LAND)
-			shape := func(e ast.Expr) string {
-				x := ast.Unparen(e)
-				neg := ""
-				if u, ok := x.(*ast.UnaryExpr); ok && u.Op == token.NOT {
-					neg = "!"
-					x = ast.Unparen(u.X)
+		// existing public package; public over private: a non-nil-error return R whose facts that
+		// distinguish it from the store point are exactly the expected ones (form-independent:
+		// `a && b`, nested ifs, if/else, renamed locals all read the same).
+		classify := func(ft gbFact) string {
+			if x, isNilHolds, ok := gbIsNilCmp(ft); ok && engine.ObjOf(info, x) == pvObj {
+				if isNilHolds {
+					return "pv==nil"
 				}
-				if bx, ok := x.(*ast.BinaryExpr); ok && bx.Op == token.NEQ && isNil(bx.Y) && engine.ObjOf(info, bx.X) == pvObj {
-					return "pv!=nil"
+				return "pv!=nil"
+			}
+			if sel, ok := ast.Unparen(ft.E).(*ast.SelectorExpr); ok && sel.Sel.Name == "Private" {
+				who := "new"
+				if engine.ObjOf(info, sel.X) == pvObj {
+					who = "pv"
 				}
-				if sel, ok := x.(*ast.SelectorExpr); ok && sel.Sel.Name == "Private" {
-					if engine.ObjOf(info, sel.X) == pvObj {
-						return neg + "pv.Private"
-					}
-					return neg + "new.Private"
+				if ft.Pos {
+					return who + ".Private"
 				}
-				return "?"
+				return "!" + who + ".Private"
 			}
-			var sh []string
-			for _, e := range cj {
-				sh = append(sh, shape(e))
-			}
-			s := strings.Join(sh, "&&")
-			if s == "pv!=nil&&!pv.Private" {
-				okEx = true
-			}
-			if s == "pv!=nil&&pv.Private&&!new.Private" {
-				okPriv = true
-			}
+			return "?" + engine.ExprString(ft.E)
 		}
-		c.Check("addpkg-guard", "existing-public-package", t.Pos(), okEx, "a return gated by exactly `pv != nil && !pv.Private` must precede storing (an existing public package can never be replaced)")
-		c.Check("addpkg-guard", "no-public-over-private", t.Pos(), okPriv, "a return gated by exactly `pv != nil && pv.Private && !gm.Private` must precede storing")
+		tGates := map[*cfgBlock]bool{} // gate blocks of the store point, keyed with polarity
+		tPol := map[*cfgBlock]bool{}
+		for _, gt := range g.Gates(t) {
+			tGates[gt.Block] = true
+			tPol[gt.Block] = gt.OnTrue
+		}
+		findReturn := func(expected []string) (bool, string) {
+			why := "no error return distinguished from storing by exactly {" + strings.Join(expected, ", ") + "}"
+			found := false
+			engine.InspectBody(f, func(n ast.Node) {
+				r, isR := n.(*ast.ReturnStmt)
+				if !isR || found || len(r.Results) != 1 || isNil(r.Results[0]) {
+					return
+				}
+				rs := f.SiteOf(r)
+				if rs == nil {
+					return
+				}
+				gates := g.Gates(rs)
+				all := map[string]bool{}
+				for _, ft := range gbFactsOf(gates) {
+					all[classify(ft)] = true
+				}
+				for _, e := range expected {
+					if !all[e] {
+						return
+					}
+				}
+				// distinguishing gates: gate R but not (with the same polarity) the store point
+				var dist []engine.Gate
+				dominatesStore := false
+				for _, gt := range gates {
+					if tGates[gt.Block] && tPol[gt.Block] == gt.OnTrue {
+						continue
+					}
+					dist = append(dist, gt)
+					if g.BlockDominates(gt.Block, t.Block) {
+						dominatesStore = true
+					}
+				}
+				var dfs []gbFact
+				for _, gt := range dist {
+					gbSplitFact(gt.Cond, gt.OnTrue, &dfs)
+				}
+				exp := map[string]bool{}
+				for _, e := range expected {
+					exp[e] = true
+				}
+				for _, ft := range dfs {
+					if k := classify(ft); !exp[k] {
+						why = "the rejecting return additionally depends on `" + strings.TrimPrefix(k, "?") + "`"
+						return
+					}
+				}
+				if len(dist) == 0 || !dominatesStore {
+					why = "the rejecting test does not lie on every path to the store point"
+					return
+				}
+				found = true
+			})
+			if found {
+				why = "present"
+			}
+			return found, why
+		}
+		okEx, whyEx := findReturn([]string{"pv!=nil", "!pv.Private"})
+		c.Check("addpkg-guard", "existing-public-package", t.Pos(), okEx, "an error return under exactly `pv != nil && !pv.Private` must precede storing (an existing public package can never be replaced): "+whyEx)
+		okPriv, whyPriv := findReturn([]string{"pv!=nil", "pv.Private", "!new.Private"})
+		c.Check("addpkg-guard", "no-public-over-private", t.Pos(), okPriv, "an error return under exactly `pv != nil && pv.Private && !gm.Private` must precede storing: "+whyPriv)
 	}
 
 	// delete only for an existing private package at the same path
-	dels := f.CallsTo(gbG+"(Store).DeleteMemPackage", gbG+"(TransactionStore).DeleteMemPackage", gbG+"(*defaultStore).DeleteMemPackage")
+	dels := f.DeepCallsTo(2, gbG+"(Store).DeleteMemPackage", gbG+"(TransactionStore).DeleteMemPackage", gbG+"(*defaultStore).DeleteMemPackage")
 	c.Floor("delete-only-private", len(dels), 1)
-	for _, ds := range dels {
-		ok, why := true, "deleted only when pv != nil after the public-package rejection (hence private), same path"
-		if len(ds.Call.Args) != 1 || !isPath(ds.Call.Args[0]) {
-			ok, why = false, "deletes a different path than the one looked up"
-		}
-		nonNil, afterPublic := false, false
-		for _, gt := range g.Gates(ds) {
-			cj := engine.Conjuncts(gt.Cond, token.LAND)
-			if gt.OnTrue && len(cj) == 1 {
-				if bx, isB := ast.Unparen(cj[0]).(*ast.BinaryExpr); isB && bx.Op == token.NEQ && isNil(bx.Y) && engine.ObjOf(info, bx.X) == pvObj {
-					nonNil = true
-					continue
+	for _, dd := range dels {
+		ds := dd.Outer
+		ok, why := true, "deleted only when the looked-up package exists and is private, same path"
+		if dd.Inner == dd.Outer {
+			if len(ds.Call.Args) != 1 || !isPath(ds.Call.Args[0]) {
+				ok, why = false, "deletes a different path than the one looked up"
+			}
+		} else {
+			passes := false
+			for _, a := range ds.Call.Args {
+				if isPath(a) {
+					passes = true
 				}
 			}
-			if !gt.OnTrue && len(cj) == 2 && engine.MentionsName(cj[1], "Private") && engine.Mentions(info, cj[0], pvObj) {
-				if u, isU := ast.Unparen(cj[1]).(*ast.UnaryExpr); isU && u.Op == token.NOT {
-					afterPublic = true
-				}
+			if !passes {
+				ok, why = false, "the helper that deletes is not given the looked-up path"
 			}
 		}
-		if !nonNil || !afterPublic {
-			ok, why = false, "DeleteMemPackage must be gated by a sole `pv != nil` and lie after the `pv != nil && !pv.Private` return"
+		nonNil, private := false, false
+		for _, ft := range gbFactsOf(g.Gates(ds)) {
+			if x, isNilHolds, isCmp := gbIsNilCmp(ft); isCmp && !isNilHolds && engine.ObjOf(info, x) == pvObj {
+				nonNil = true
+			}
+			if sel, isSel := ast.Unparen(ft.E).(*ast.SelectorExpr); isSel && sel.Sel.Name == "Private" && ft.Pos && engine.ObjOf(info, sel.X) == pvObj {
+				private = true
+			}
+		}
+		if !nonNil || !private {
+			ok, why = false, "DeleteMemPackage must be reached only when `pv != nil` and `pv.Private` hold (after the public-package rejection)"
 		}
 		c.Check("delete-only-private", f.Name, ds.Pos(), ok, why)
 	}
@@ -458,8 +517,8 @@ func gbC12Writers(c *engine.Ctx, p *engine.Prog) {
 		if thorough {
 			allow = append(append([]string{}, allow...), row.tools...)
 		}
-		extra := engine.SetDiff(callers, allow)
-		c.Check("who-may-call", row.what, token.NoPos, len(callers) > 0 && len(extra) == 0, "callers: "+join(callers)+"; not in the frozen table: "+join(extra))
+		extra := p.UnexpectedCallers(refs, allow)
+		c.Check("who-may-call", row.what, token.NoPos, len(callers) > 0 && len(extra) == 0, "callers: "+join(callers)+"; not in the frozen table (nor private helpers of it): "+join(extra))
 	}
 	// writes under the pkg: keys happen only through iavlStore.Set/Delete in setMemPackageBlob / DeleteMemPackage:
 	// every function that both constructs a pkg: key and calls Set/Delete on a store is in the writer table
